@@ -1,4 +1,4 @@
-(* C18: every recorded finding class (1 .. 12) contains a statement on which the faithful
+(* C18: every recorded finding class that is still open (2 .. 11) contains a statement on which the faithful
    implementation model does NOT return what the reference semantics defines.  The same witnesses
    are replayed on the real Database by every check run (known_findings.d/C18.json).  Also the
    non-vacuity of the class-0 theorem: statements of every subquery form that are well-formed,
@@ -59,6 +59,11 @@ Definition wit6 : witness :=
    ((QSel [(XCol 0 0 true)] (SBase 0) (Some (XIn true (XCol 0 1 true) (QSel [(XCol 0 1 true)] (SBase 1) None)))), [])).
 Definition wit7 : witness :=
   ([2%nat; 2%nat],
+   [[[(VInt 1); (VInt 1)]; [(VInt 2); (VInt 3)]]; [[(VInt 1); (VInt 1)]]],
+   ((QSel [(XCol 0 0 true)] (SBase 0) (Some (XExists false (QSel [(XCol 0 0 true)] (SBase 1) (Some (XCmp CEq (XCol 0 1 false) (XCol 1 1 true))))))), [])).
+(* the former class-7 witness (key AND residual condition): repaired by 53a2c94 *)
+Definition wit7_old : witness :=
+  ([2%nat; 2%nat],
    [[[(VInt 1); (VInt 1)]; [(VInt 2); (VInt 1)]]; [[(VInt 1); (VInt 1)]]],
    ((QSel [(XCol 0 0 true)] (SBase 0) (Some (XExists false (QSel [(XCol 0 0 true)] (SBase 1) (Some (XAnd (XCmp CEq (XCol 0 1 true) (XCol 1 1 true)) (XCmp CGt (XCol 0 0 true) (XLit (VInt 5))))))))), [])).
 Definition wit8 : witness :=
@@ -82,10 +87,9 @@ Definition wit12 : witness :=
    [[[(VInt 1); (VInt 1)]; [(VInt 2); (VInt 1)]]; [[(VInt 1); (VInt 1)]]],
    ((QSel [(XCol 0 0 true)] (SBase 0) (Some (XCmp CEq (XCol 0 1 true) (XScalar (QSel [(XCol 0 1 true)] (SBase 0) (Some (XCmp CGt (XCol 0 0 true) (XLit (VInt 0))))))))), [])).
 
-Theorem known_classes_refuted : forall k, In k [1; 2; 3; 4; 5; 6; 7; 8; 9; 10; 11; 12] -> exists w, refutes k w = true.
+Theorem known_classes_refuted : forall k, In k [2; 3; 4; 5; 6; 7; 8; 9; 10; 11] -> exists w, refutes k w = true.
 Proof.
   intros k H.
-  destruct H as [H|H]; [subst; exists wit1; vm_compute; reflexivity|].
   destruct H as [H|H]; [subst; exists wit2; vm_compute; reflexivity|].
   destruct H as [H|H]; [subst; exists wit3; vm_compute; reflexivity|].
   destruct H as [H|H]; [subst; exists wit4; vm_compute; reflexivity|].
@@ -96,9 +100,18 @@ Proof.
   destruct H as [H|H]; [subst; exists wit9; vm_compute; reflexivity|].
   destruct H as [H|H]; [subst; exists wit10; vm_compute; reflexivity|].
   destruct H as [H|H]; [subst; exists wit11; vm_compute; reflexivity|].
-  destruct H as [H|H]; [subst; exists wit12; vm_compute; reflexivity|].
   destruct H.
 Qed.
+
+(* the witnesses of the findings repaired in /repo (432d38e INTERSECT / EXCEPT ALL, 53a2c94 hash semi
+   join with a residual condition, 855697d scalar subquery with several rows): the model of the
+   code as it is now answers them as the reference semantics defines *)
+Theorem former_classes_repaired :
+  meets (fst (fst wit1)) (snd (fst wit1)) (snd wit1) = true /\
+  meets (fst (fst wit7_old)) (snd (fst wit7_old)) (snd wit7_old) = true /\
+  meets (fst (fst wit12)) (snd (fst wit12)) (snd wit12) = true /\
+  impl_stmt (fst (fst wit12)) (snd (fst wit12)) (snd wit12) = MErr.
+Proof. vm_compute. repeat split; reflexivity. Qed.
 
 (* ------------------------------------------------------------------ non-vacuity of the class-0 theorem *)
 Definition covered (w : witness) : bool :=
